@@ -107,15 +107,22 @@ def table_outcomes(F, rep, q, kind, file_is_stream):
         table_ranges |= {(shoff, e) for e in ext_alts}
     bad = []
     n_fail = 0
-    for cause, t, st in prov.failure_causes(an):
-        n_fail += 1
+    def allowed(cause):
         k = cause[0]
         if k in ("conv", "entsize", "overflow"):
-            continue
+            return True
         if k == "parse" and cause[1] == SH:
-            continue
+            return True
         if k == "read" and (cause[1], cause[2]) in table_ranges:
+            return True
+        if k == "via":      # the error of a private helper: each of the helper's own causes must be allowed here
+            return all(allowed(c) for c in cause[2])
+        return False
+    for cause, t, st in prov.failure_causes(an):
+        n_fail += 1
+        if allowed(cause):
             continue
+        k = cause[0]
         bad.append("%s %s" % (k, [show(x)[:140] if isinstance(x, tuple) else x for x in cause[1:]]))
     rep.require(not bad, "table-location", q + ":failures", w, "%d failure outcomes, all implied by the header (conversion, entsize, overflow, declared bytes unreadable)" % n_fail,
                 "%s refuses the table under a condition the ELF header does not imply: %s" % (q, "; ".join(bad)[:600]))
